@@ -1,5 +1,285 @@
+/-
+  C01 gluing: lookup beyond the recorded transitions of an extended table follows the footer rule at
+  the instant itself, under the regularity assumption `Regular` (the recorded part ends before the
+  later rule instant of year y0+1 and before every rule instant of the years y0+2 … y0+401).
+  Stated over the raw rule fields; `Cctz/Properties/C01Glue.lean` restates it with its vocabulary.
+-/
 import Cctz.Model.Tz
 import Cctz.Spec.PosixRule
 import Cctz.Spec.TableSem
 import Cctz.Properties.C01
 import Cctz.Properties.C01Rule
+import Cctz.Proofs.RgOrder
+import Cctz.Proofs.RgTable
+import Cctz.Proofs.RgCounter
+
+namespace Cctz.Rg
+open Cctz Cctz.Tz Cctz.Spec
+
+/-! ### total instant functions -/
+
+/-- the rule instant of year `y` (a date in the grammar selects a day in every year) -/
+def inst (d : Posix.Date) (time off : Int) (y : Int) : Int := (ruleInstant d time off y).getD 0
+
+theorem ruleInstant_some (d : Posix.Date) (time off : Int) (y : Int) (hg : DateInGrammar d) :
+    ruleInstant d time off y = some (inst d time off y) := by
+  obtain ⟨n, h, _⟩ := Ru.ruleDay_eq_modelDays d y hg
+  unfold inst ruleInstant
+  rw [h]; rfl
+
+theorem inst_per (d : Posix.Date) (time off : Int) (hg : DateInGrammar d) : Per (inst d time off) := by
+  intro y
+  have h := Ru.ruleInstant_add_400 d time off y
+  rw [ruleInstant_some d time off y hg, ruleInstant_some d time off (y + 400) hg] at h
+  simpa using h
+
+/-! ### the extra assumption -/
+
+/-- Regularity of the recorded part against the rule (all that the full statement lacks):
+ 1. at least one rule instant of year `y0+1` is later than the last recorded transition `L`
+    — otherwise the 400-year window `[last - k400, last)` that `BreakTime` maps into starts inside
+    the recorded part and the recorded types, not the rule, answer for the instants between the
+    later rule instant of year `y0+401` and `L + k400`;
+ 2. every rule instant of the years `y0+2 … y0+401` is later than `L` — otherwise a rule instant
+    of a year beyond the tabulated ones (its copy 400 years earlier was dropped) can fall inside
+    the tabulated range without being in the table.
+ Both hold whenever `y0` is the civil year of `L` (as in `ExtendTransitions`), offsets are below a
+ day and rule times within the ±167 h of the grammar, except that 1. fails when the recorded part
+ ends in the last days of year `y0` after both (negative-time) rule instants of year `y0+1`. -/
+def Regular (sd : Posix.Date) (st : Int) (ed : Posix.Date) (et stdOff dstOff y0 L : Int) : Prop :=
+  (∃ a, (ruleInstant sd st stdOff (y0 + 1) = some a ∨ ruleInstant ed et dstOff (y0 + 1) = some a) ∧
+    L < a) ∧
+  (∀ y a, y0 + 2 ≤ y → y ≤ y0 + 401 →
+    (ruleInstant sd st stdOff y = some a ∨ ruleInstant ed et dstOff y = some a) → L < a)
+
+theorem reg_of_regular {sd ed : Posix.Date} {st et stdOff dstOff y0 L : Int}
+    (gs : DateInGrammar sd) (ge : DateInGrammar ed)
+    (h : Regular sd st ed et stdOff dstOff y0 L) :
+    Reg (inst sd st stdOff) (inst ed et dstOff) y0 L := by
+  obtain ⟨⟨a, ha, haL⟩, h2⟩ := h
+  refine ⟨?_, ?_⟩
+  · rw [ruleInstant_some _ _ _ _ gs, ruleInstant_some _ _ _ _ ge] at ha
+    rcases ha with e | e
+    · left; injection e with e; omega
+    · right; injection e with e; omega
+  · intro y h1 h2'
+    exact ⟨h2 y _ h1 h2' (Or.inl (ruleInstant_some _ _ _ _ gs)),
+      h2 y _ h1 h2' (Or.inr (ruleInstant_some _ _ _ _ ge))⟩
+
+/-! ### the rule's verdict, over instant functions -/
+
+/-- `a` is the start (`kind = true`) or the end (`kind = false`) instant of year `y` -/
+def IsK (s e : Int → Int) (y a : Int) (kind : Bool) : Prop :=
+  (kind = true ∧ a = s y) ∨ (kind = false ∧ a = e y)
+
+theorem IsK.inst {s e : Int → Int} {y a : Int} {kind : Bool} (h : IsK s e y a kind) : Inst s e y a := by
+  rcases h with h | h
+  · exact Or.inl h.2
+  · exact Or.inr h.2
+
+theorem IsK.shift {s e : Int → Int} (ps : Per s) (pe : Per e) {y a : Int} {kind : Bool} (j : Int)
+    (h : IsK s e y a kind) : IsK s e (y + 400 * j) (a + j * 12622780800) kind := by
+  rcases h with h | h
+  · left; rw [ps.int, h.2]; exact ⟨h.1, rfl⟩
+  · right; rw [pe.int, h.2]; exact ⟨h.1, rfl⟩
+
+/-- in a chain an instant has one kind only -/
+theorem IsK.kind_eq {s e : Int → Int} (c : Chain s e) {y y' a : Int} {k k' : Bool}
+    (h : IsK s e y a k) (h' : IsK s e y' a k') : k = k' := by
+  have hy := c.year_eq h.inst h'.inst
+  subst hy
+  have := c.ne y
+  rcases h with ⟨h1, h2⟩ | ⟨h1, h2⟩ <;> rcases h' with ⟨h3, h4⟩ | ⟨h3, h4⟩
+  · rw [h1, h3]
+  · omega
+  · omega
+  · rw [h1, h3]
+
+/-- `C01Glue.RuleKindAt` over instant functions -/
+def KindAt (s e : Int → Int) (y0 L t : Int) (k : Option Bool) : Prop :=
+  match k with
+  | none => ∀ y a kind, y0 ≤ y → IsK s e y a kind → ¬ (L < a ∧ a ≤ t)
+  | some kind => ∃ y a, y0 ≤ y ∧ IsK s e y a kind ∧ L < a ∧ a ≤ t ∧
+      ∀ y' b kind', y0 ≤ y' → IsK s e y' b kind' → b ≤ t → b ≤ a ∧ (b = a → kind' = kind)
+
+/-- the type a verdict stands for -/
+def tiOf (rec : List Transition) (dstTi stdTi : Nat) : Option Bool → Nat
+  | none => lastType rec
+  | some true => dstTi
+  | some false => stdTi
+
+/-- an entry of the generated part is an instant with its kind -/
+theorem genList_kind {s e : Int → Int} {dstTi stdTi : Nat} {L y0 : Int} {x : Transition}
+    (hx : x ∈ genList s e dstTi stdTi L y0) :
+    ∃ y kind, y0 ≤ y ∧ y ≤ y0 + 401 ∧ IsK s e y x.unixTime kind ∧ L < x.unixTime ∧
+      x.typeIndex = (if kind then dstTi else stdTi) := by
+  obtain ⟨y, h1, h2, h | h⟩ := (mem_genList _ _ _ _ _ _ _).1 hx
+  · exact ⟨y, true, h1, h2, Or.inl ⟨rfl, by rw [h.1]⟩, by rw [h.1]; exact h.2, by rw [h.1]; rfl⟩
+  · exact ⟨y, false, h1, h2, Or.inr ⟨rfl, by rw [h.1]⟩, by rw [h.1]; exact h.2, by rw [h.1]; rfl⟩
+
+/-- an instant later than `L` of a tabulated year is an entry of the generated part -/
+theorem genList_of_inst {s e : Int → Int} (dstTi stdTi : Nat) {L y0 y a : Int}
+    (h1 : y0 ≤ y) (h2 : y ≤ y0 + 401) (ha : Inst s e y a) (haL : L < a) :
+    ∃ x ∈ genList s e dstTi stdTi L y0, x.unixTime = a := by
+  rcases ha with h | h
+  · exact ⟨_, (mem_genList _ _ _ _ _ _ _).2 ⟨y, h1, h2, Or.inl ⟨rfl, by omega⟩⟩, h.symm⟩
+  · exact ⟨_, (mem_genList _ _ _ _ _ _ _).2 ⟨y, h1, h2, Or.inr ⟨rfl, by omega⟩⟩, h.symm⟩
+
+/-- the same for a list that agrees with the generated part in the time and type columns -/
+theorem gen_kind {s e : Int → Int} {dstTi stdTi : Nat} {L y0 : Int} {gen : List Transition}
+    (hkeys : gen.map key = (genList s e dstTi stdTi L y0).map key) {x : Transition} (hx : x ∈ gen) :
+    ∃ y kind, y0 ≤ y ∧ y ≤ y0 + 401 ∧ IsK s e y x.unixTime kind ∧ L < x.unixTime ∧
+      x.typeIndex = (if kind then dstTi else stdTi) := by
+  obtain ⟨x0, hx0, e1, e2⟩ := mem_of_keys hkeys hx
+  have := genList_kind hx0
+  rw [e1, e2] at this
+  exact this
+
+theorem gen_of_inst {s e : Int → Int} {dstTi stdTi : Nat} {L y0 y a : Int} {gen : List Transition}
+    (hkeys : gen.map key = (genList s e dstTi stdTi L y0).map key)
+    (h1 : y0 ≤ y) (h2 : y ≤ y0 + 401) (ha : Inst s e y a) (haL : L < a) :
+    ∃ x ∈ gen, x.unixTime = a := by
+  obtain ⟨x0, hx0, e0⟩ := genList_of_inst dstTi stdTi h1 h2 ha haL
+  obtain ⟨x, hx, e1, _⟩ := mem_of_keys hkeys.symm hx0
+  exact ⟨x, hx, by omega⟩
+
+/-! ### the table's verdict at an instant of the tabulated range -/
+
+/-- inside the tabulated range (from the last recorded entry up to the later instant of year
+y0+401) the table's type is the rule's verdict over the years from `y0` on -/
+theorem table_verdict (z : Zone) (wf : TableWF z) (rec : List Transition) (hrec : rec ≠ [])
+    (s e : Int → Int) (dstTi stdTi : Nat) (y0 : Int) (c : Chain s e)
+    (gen : List Transition) (hl : z.transitions.toList = rec ++ gen)
+    (hkeys : gen.map key = (genList s e dstTi stdTi (lastTime rec) y0).map key)
+    (t : Int) (ht : lastTime rec ≤ t) (htH : t < s (y0 + 401) ∨ t < e (y0 + 401)) :
+    ∃ k, KindAt s e y0 (lastTime rec) t k ∧ typeAt z t = tiOf rec dstTi stdTi k := by
+  -- instants at or before t belong to tabulated years
+  have hyr : ∀ y a, Inst s e y a → a ≤ t → y ≤ y0 + 401 := by
+    intro y a ha hat
+    by_cases hy : y0 + 401 < y
+    · have h1 := c.lt hy (Or.inl rfl) ha
+      have h2 := c.lt hy (Or.inr rfl) ha
+      omega
+    · omega
+  rcases typeAt_split z wf rec _ hrec hl t ht with ⟨hno, hty⟩ | ⟨x, hx, hxt, hmax, hty⟩
+  · refine ⟨none, ?_, hty⟩
+    intro y a kind hy hk hc
+    obtain ⟨x, hx, hxa⟩ := gen_of_inst hkeys hy (hyr y a hk.inst hc.2) hk.inst hc.1
+    exact hno ⟨x, hx, by omega⟩
+  · obtain ⟨y, kind, hy1, _, hk, hxL, hti⟩ := gen_kind hkeys hx
+    refine ⟨some kind, ⟨y, x.unixTime, hy1, hk, hxL, hxt, ?_⟩, ?_⟩
+    · intro y' b kind' hy' hk' hbt
+      have hle : b ≤ x.unixTime := by
+        by_cases hbL : lastTime rec < b
+        · obtain ⟨x', hx', hx'b⟩ := gen_of_inst hkeys hy' (hyr y' b hk'.inst hbt) hk'.inst hbL
+          have := hmax x' hx' (by omega)
+          omega
+        · omega
+      refine ⟨hle, ?_⟩
+      intro hb
+      subst hb
+      exact IsK.kind_eq c hk' hk
+    · rw [hty, hti]; cases kind <;> rfl
+
+/-! ### the core theorem -/
+
+theorem glue_core (z : Zone) (rec : List Transition) (s e : Int → Int) (ps : Per s) (pe : Per e)
+    (y0 : Int) (dstTi stdTi h : Nat) (t : Int)
+    (wf : TableWF z) (cc : CivilCols z) (hrec : rec ≠ []) (hext : z.extended = true)
+    (gen : List Transition) (hl : z.transitions.toList = rec ++ gen)
+    (hkeys : gen.map key = (genList s e dstTi stdTi (lastTime rec) y0).map key)
+    (rg : Reg s e y0 (lastTime rec)) (ht : lastTime rec ≤ t) :
+    ∃ k, KindAt s e y0 (lastTime rec) t k ∧
+      (breakTime z h t).val.1.offset = (typ z (tiOf rec dstTi stdTi k)).utcOffset ∧
+      (breakTime z h t).val.1.isDst = (typ z (tiOf rec dstTi stdTi k)).isDst := by
+  have pw := pairwise_of_wf z wf
+  rw [hl, List.pairwise_append] at pw
+  obtain ⟨pr, pg, prg⟩ := pw
+  have so := sorted_of_genList s e dstTi stdTi (lastTime rec) y0 (pairwise_of_keys hkeys pg)
+  have c := chain_of_sorted ps pe so rg
+  have hne := c.ne (y0 + 401)
+  have hr401 := rg.r2 (y0 + 401) (by omega) (by omega)
+  -- the last entry of the table is the later instant of year y0+401
+  have hlast : timeOf z (z.transitions.size - 1) = max (s (y0 + 401)) (e (y0 + 401)) := by
+    have hI : Inst s e (y0 + 401) (max (s (y0 + 401)) (e (y0 + 401))) := by
+      unfold Inst; omega
+    obtain ⟨x, hx, hxa⟩ := gen_of_inst hkeys (y := y0 + 401) (by omega) (by omega) hI (by omega)
+    rw [← hxa]
+    apply last_of_max z wf x (by rw [hl]; exact List.mem_append_right _ hx)
+    intro x' hx'
+    rw [hl] at hx'
+    rcases List.mem_append.1 hx' with hm | hm
+    · have h1 := le_getLast rec hrec pr x' hm
+      rw [← lastTime_eq rec hrec] at h1
+      omega
+    · obtain ⟨y, kind, _, hy2, hk, _, _⟩ := gen_kind hkeys hm
+      by_cases hy : y = y0 + 401
+      · subst hy
+        rcases hk.inst with e1 | e1 <;> omega
+      · have := c.lt (show y < y0 + 401 by omega) hk.inst (Or.inl rfl)
+        omega
+  by_cases hcase : t < timeOf z (z.transitions.size - 1)
+  · -- inside the table
+    obtain ⟨_, _, ho, hd, _⟩ := C01.breakTime_table z h t wf cc (Or.inr hcase)
+    obtain ⟨k, hk, hty⟩ := table_verdict z wf rec hrec s e dstTi stdTi y0 c gen hl hkeys t ht
+      (by rw [hlast] at hcase; omega)
+    refine ⟨k, hk, ?_, ?_⟩
+    · rw [ho]; unfold offAt; rw [hty]
+    · rw [hd, hty]
+  · -- beyond the table: 400-year shift
+    have hge : timeOf z (z.transitions.size - 1) ≤ t := by omega
+    obtain ⟨hlt, hlo, _, _, ho, hd, _⟩ := C01.breakTime_shift z h t wf cc hext hge
+    -- name the shift and the shifted instant
+    generalize hq : (t - timeOf z (z.transitions.size - 1)) / 12622780800 + 1 = q at hlt hlo ho hd
+    have hq1 : 1 ≤ q := by
+      have : 0 ≤ (t - timeOf z (z.transitions.size - 1)) / 12622780800 :=
+        Int.ediv_nonneg (by omega) (by omega)
+      omega
+    generalize ht' : t - q * 12622780800 = t' at hlt hlo ho hd
+    -- the window starts at the later instant of year y0+1, which is after the recorded part
+    have hs1 := ps.int (y0 + 1) 1
+    have he1 := pe.int (y0 + 1) 1
+    rw [show y0 + 1 + 400 * 1 = y0 + 401 by omega] at hs1 he1
+    have hwin : max (s (y0 + 1)) (e (y0 + 1)) ≤ t' := by rw [hlast] at hlo; omega
+    have hL1 : lastTime rec < max (s (y0 + 1)) (e (y0 + 1)) := by
+      rcases rg.r1 with h1 | h1 <;> omega
+    have hI1 : Inst s e (y0 + 1) (max (s (y0 + 1)) (e (y0 + 1))) := by unfold Inst; omega
+    obtain ⟨k, hk, hty⟩ := table_verdict z wf rec hrec s e dstTi stdTi y0 c gen hl hkeys t' (by omega)
+      (by rw [hlast] at hlt; omega)
+    cases k with
+    | none =>
+      exfalso
+      have hkind : ∃ kind, IsK s e (y0 + 1) (max (s (y0 + 1)) (e (y0 + 1))) kind := by
+        rcases hI1 with h1 | h1
+        · exact ⟨true, Or.inl ⟨rfl, h1⟩⟩
+        · exact ⟨false, Or.inr ⟨rfl, h1⟩⟩
+      obtain ⟨kind, hkk⟩ := hkind
+      exact hk (y0 + 1) _ kind (by omega) hkk ⟨hL1, hwin⟩
+    | some kind =>
+      obtain ⟨y, a, hy, hka, haL, hat, huniv⟩ := hk
+      refine ⟨some kind, ⟨y + 400 * q, a + q * 12622780800, ?_, hka.shift ps pe q, ?_, by omega, ?_⟩, ?_, ?_⟩
+      · omega
+      · have : 0 < q * 12622780800 := Int.mul_pos (by omega) (by omega)
+        omega
+      · intro y' b kind' hy' hkb hbt
+        have hkb' := hkb.shift ps pe (-q)
+        have hb't : b + -q * 12622780800 ≤ t' := by
+          rw [Int.neg_mul]; omega
+        have key : b + -q * 12622780800 ≤ a ∧ (b + -q * 12622780800 = a → kind' = kind) := by
+          by_cases hw : y0 ≤ y' + 400 * -q
+          · exact huniv _ _ kind' hw hkb' hb't
+          · -- a year before y0: earlier than the later instant of year y0+1, which is ≤ a
+            have h1 := c.lt (show y' + 400 * -q < y0 + 1 by omega) hkb'.inst hI1
+            have hkind : ∃ kind1, IsK s e (y0 + 1) (max (s (y0 + 1)) (e (y0 + 1))) kind1 := by
+              rcases hI1 with h1 | h1
+              · exact ⟨true, Or.inl ⟨rfl, h1⟩⟩
+              · exact ⟨false, Or.inr ⟨rfl, h1⟩⟩
+            obtain ⟨kind1, hkk⟩ := hkind
+            have h2 := (huniv (y0 + 1) _ kind1 (by omega) hkk hwin).1
+            exact ⟨by omega, by omega⟩
+        rw [Int.neg_mul] at key
+        exact ⟨by omega, fun hb => key.2 (by omega)⟩
+      · rw [ho]; unfold offAt; rw [hty]
+      · rw [hd, hty]
+
+end Cctz.Rg
